@@ -137,7 +137,82 @@ def c04_jobs(tier):
     return jobs
 
 
+def c05_jobs(tier):
+    t = 1 if tier == "quick" else 2
+    jobs = []
+    for k in PAYLOAD_KINDS:
+        jobs.append(job(MSG, "HStrictParseOfEncode", [t, k, 0]))
+        jobs.append(job(MSG, "HRefLemma", [t, k, 0]))
+        for perm in ((0, 1, 2) if k == 33 else (0,)):
+            jobs.append(job(MSG, "HDecodeLiberal", [t, 1, perm, k, 0]))
+            if tier == "thorough":
+                jobs.append(job(MSG, "HDecodeLiberal", [t, 0, perm, k, 0]))
+    pairs = [(PAYLOAD_KINDS[i], PAYLOAD_KINDS[(i + 2) % 15]) for i in range(15)]
+    if tier == "thorough":
+        pairs = [(a, b) for a in PAYLOAD_KINDS for b in PAYLOAD_KINDS]
+    for a, b in pairs:
+        jobs.append(job(MSG, "HStrictParseOfEncode", [0, a, b, 0]))
+        jobs.append(job(MSG, "HDecodeLiberal", [0, 1, 1, a, b, 0]))
+    jobs.append(job(MSG, "HStrictParseOfEncode", [0, 0]))
+    jobs.append(job(MSG, "HDecodeLiberal", [0, 1, 0, 0]))
+    for m in (0, 1, 2, 3, 254):
+        jobs.append(job(EAP, "HEapRefLemma", [m, 0, t - 1]))
+    for m in ([1, 4, 8, 16, 32, 64, 127] if tier == "quick" else range(128)):
+        jobs.append(job(EAP, "HEapRefLemma", [50, m, t - 1]))
+    return jobs
+
+
+def c13_jobs(tier):
+    jobs = []
+    q = tier == "quick"
+    L = 8 if q else 64
+    bases = [[], [40], [33, 41], [47, 48]] if q else [[]] + [[k] for k in PAYLOAD_KINDS] + [[33, 41], [47, 48], [34, 40, 43]]
+    for base in bases:
+        for mode in (0, 1, 2):
+            if mode == 2 and not base:
+                continue
+            jobs.append(job(MSG, "HSkipUnsupported", [-1, mode, L] + base + [0]))
+    return jobs
+
+
+def c20_jobs(tier):
+    jobs = []
+    q = tier == "quick"
+    t = 1 if not q else 0
+    for k in PAYLOAD_KINDS:
+        jobs.append(job(MSG, "HDecodeOwnsData", [1 if k != 33 else t, k, 0]))
+        jobs.append(job(MSG, "HEncodePure", [1 if k != 33 else t, k, 0]))
+    for i in range(15):
+        a, b = PAYLOAD_KINDS[i], PAYLOAD_KINDS[(i + 4) % 15]
+        jobs.append(job(MSG, "HDecodeOwnsData", [0, a, b, 0]))
+        jobs.append(job(MSG, "HEncodePure", [0, a, b, 0]))
+    for n in range(0, (28 + 8 if q else 28 + 10) + 1):
+        jobs.append(job(MSG, "HDecodeOwnsDataArbitrary", [n], solver="cvc5"))
+    suites = [0, 4, 8] if q else range(9)
+    for s in suites:
+        for role in (0, 1):
+            for i, k in enumerate(PAYLOAD_KINDS):
+                if q and (i + s + role) % 3 != 0:
+                    continue
+                jobs.append(job(ROOT, "HUnprotectOwnsData", [s, role, (i + role) % 2, 0, k, 0]))
+                jobs.append(job(ROOT, "HProtectFrame", [s, role, 0, k, 0]))
+            jobs.append(job(ROOT, "HProtectFrame", [s, role, 0, 0]))
+            jobs.append(job(ROOT, "HProtectFrame", [s, role, 0, 33, 48, 0]))
+    return jobs
+
+
 PROPS = {
+    "C05": dict(jobs=c05_jobs, claim="Both directions against an independently written RFC 7296 / RFC 3748 / RFC 4187 codec executed by the same engine: the strict reference parser accepts every library encoding and recovers exactly the encoded fields; the library decodes every datagram of the liberal reference encoder (symbolic reserved bits, critical flags, three transform orders) to the fields it was built from - for all field values of each shape. The reference's own round-trip lemma is discharged too.",
+                bounds=lambda t: "generator shapes of tier %s per payload kind, 15 (quick) / 225 (thorough) ordered pairs at minimal shape, transform orders {grouped, reversed, rotated}" % ("1" if t == "quick" else "2"),
+                outside="larger shapes; interleavings of more than 3 transforms beyond reverse/rotate",
+                trusted=["the reference codec in harness/message/zz_verif_ref.go and harness/eap/zz_verif_ref.go (written from the RFC layouts; its own lemma Parse(Encode(m)) == m is checked)"]),
+    "C13": dict(jobs=c13_jobs, claim="For each base message shape and every one or two insertion positions, a solver-decided statement over a symbolic unsupported type code (all of 1..32, 49..255 at once), symbolic flags and body: non-critical => decodes exactly as the base message; critical => error; critical/reserved bits on implemented payloads are ignored.",
+                bounds=lambda t: "base messages of 0..2 (quick) / 0..3 (thorough) payloads, one or two insertions at every position, body lengths {0,1,8%s}" % ("" if t == "quick" else ",64"),
+                outside="bodies longer than 64 octets (the body is only skipped by length), more than two insertions"),
+    "C20": dict(jobs=c20_jobs, claim="Decided on the engine's heap: after Decode / DecodeDecrypt the receive buffer (including spare capacity) is overwritten with fresh symbolic octets and every payload field must still equal its snapshot for all values (an aliased field would read the fresh symbols); Encode leaves all payload fields unchanged, does not reference the returned buffer, and two encodings are identical under the explored map iteration orders; EncodeEncrypt changes only the payload list and header bookkeeping.",
+                bounds=lambda t: "every payload kind alone and 15 pairs at generator tier 0/1; arbitrary accepted datagrams up to %d octets; protect/unprotect for %s suites" % ((36, 3) if t == "quick" else (38, 9)),
+                outside="larger messages; map iteration orders other than those listed in the evidence for maps of more than 3 entries", assumptions=CRYPTO_ASSUME),
+
     "C01": dict(jobs=c01_jobs, claim="For every suite, sender role and header mode, and every message shape within the bounds, the solver shows that unprotecting a protected message returns the original header fields and payloads for all field values, all key octets and all outcomes of the random IV and padding; the no-key path equals plain encode/decode. Bounded model checking is the right level: the code is straight-line byte arithmetic around opaque primitives, and the quantifier (all keys, all randomness) cannot be sampled.", bounds=lambda t: "9 suites x 2 sender roles x header {nil, parsed}; messages of 0, 1 and 2 payloads at minimal shape (tier 0 generator)" + ("" if t == "quick" else "; every payload kind alone and in 15 ordered pairs"),
                 outside="longer data, more than two payloads, larger nested shapes", assumptions=CRYPTO_ASSUME),
     "C03": dict(jobs=c03_jobs, claim="For every message shape within the bounds the solver shows Decode(Encode(m)) == m field by field for all field values at once (all 2^16 attribute types, all SPI contents, all ports and addresses), which pinned vectors cannot cover.", bounds=lambda t: "every payload kind alone at the %s shape set of the generator, the empty message, %s ordered pairs at minimal shape, EAP methods, EAP-AKA' attribute subsets of size %s" % (("quick", "15", "<= 2") if t == "quick" else ("thorough", "225", "<= 7")),
